@@ -154,19 +154,43 @@ def flip_miles(o, d):
 # ------------------------------------------------------------------ row filter
 
 
-def documented_skip(row):
-    """The documented reasons a row is not of interest (None when it is)."""
-    if row.get('carrier') == '\x1a':
-        return 'eof-marker'
-    if row.get('service') in SURFACE_SERVICES:
-        return 'service'
-    if int(row.get('stops')) != 0:
-        return 'stops'
-    if row.get('operating') == 'N':
-        return 'non-operating'
-    if row.get('genacft') in NON_AIRCRAFT:
-        return 'equipment'
-    return None
+def _norm(v):
+    return (v or '').strip().upper()
+
+
+def field_verdicts(row, known_airports=None):
+    """Per field: ('ok' | 'skip' | 'either', reason).
+
+    'skip'  : the value is exactly a documented skip reason.
+    'ok'    : the value is not a documented reason (a blank service code is not 'V' or 'U'; 'VU' is not a
+              service code at all; '0', '00', ' 0' all mean zero stops) -> the row may not be skipped for it.
+    'either': the documented rule is silent -- the value only becomes a documented code after trimming
+              blanks / upper-casing, or a numeric field is blank / non-numeric (malformed row)."""
+    known = AIRPORTS if known_airports is None else known_airports
+    out = {}
+    c = row.get('carrier') or ''
+    out['carrier'] = ('skip', 'eof-marker') if c == '\x1a' else ('either', 'eof-marker?') if '\x1a' in c else ('ok', None)
+    sv = row.get('service') or ''
+    out['service'] = (
+        ('skip', 'service') if sv in SURFACE_SERVICES else ('either', 'service?') if _norm(sv) in SURFACE_SERVICES else ('ok', None)
+    )
+    try:
+        out['stops'] = ('skip', 'stops') if int(row.get('stops')) != 0 else ('ok', None)
+    except (TypeError, ValueError):
+        out['stops'] = ('either', 'stops unreadable')
+    op = row.get('operating') or ''
+    out['operating'] = ('skip', 'non-operating') if op == 'N' else ('either', 'non-operating?') if _norm(op) == 'N' else ('ok', None)
+    g = row.get('genacft') or ''
+    out['genacft'] = ('skip', 'equipment') if g in NON_AIRCRAFT else ('either', 'equipment?') if _norm(g) in NON_AIRCRAFT else ('ok', None)
+    try:
+        int(row.get('distance'))
+        out['distance'] = ('ok', None)
+    except (TypeError, ValueError):
+        out['distance'] = ('either', 'distance unreadable')
+    for f in ('depapt', 'arrapt'):
+        a = row.get(f) or ''
+        out[f] = ('ok', None) if a in known else ('either', 'airport code spelling') if _norm(a) in known else ('skip', 'unknown-airport')
+    return out
 
 
 # ------------------------------------------------------------------ expansion
@@ -240,17 +264,25 @@ def expect_row(row, year):
     """Everything the property implies for one row imported into an empty or non-empty
     database: dict(kind=..., ...) with kind in
     'filtered' | 'unknown-airport' | 'zero-distance' | 'suspicious-distance' | 'import'."""
-    why = documented_skip(row)
-    if why:
-        return {'kind': 'filtered', 'why': why}
+    # 'either' (additional kind): no documented reason applies, but a field is spelt so that the
+    # documented rules are silent about it -- importing and skipping are both accepted.
+    fv = field_verdicts(row)
+    filt = [w for f, (v, w) in fv.items() if v == 'skip' and f not in ('depapt', 'arrapt')]
+    if filt:
+        return {'kind': 'filtered', 'why': filt[0]}
     o, d = row['depapt'], row['arrapt']
-    unknown = [c for c in (o, d) if c not in AIRPORTS]
+    unknown = [row[f] for f in ('depapt', 'arrapt') if fv[f][0] == 'skip']
     if unknown:
         return {'kind': 'unknown-airport', 'why': unknown[0]}
+    silent = [f'{f}={row.get(f)!r} ({w})' for f, (v, w) in fv.items() if v == 'either']
+    if silent and (fv['distance'][0] == 'either' or fv['depapt'][0] == 'either' or fv['arrapt'][0] == 'either'):
+        return {'kind': 'either', 'why': '; '.join(silent)}
     calc = airport_distance_km(o, d)
     stated = int(row['distance']) * MILE_KM
     verdict, margin = distance_rule(calc, stated)
     base = {'calc_km': calc, 'stated_km': stated, 'margin': margin}
     if verdict != 'ok':
         return dict(base, kind=f'{verdict}-distance', why=verdict)
+    if silent:
+        return {'kind': 'either', 'why': '; '.join(silent)}
     return dict(base, kind='import', **expand(row, year))
